@@ -298,12 +298,17 @@ func (r *Resolver) Resolve(ctx context.Context, name string) (ResolveResult, err
 		name = u.Host
 	}
 	if h, p, err := net.SplitHostPort(name); err == nil {
-		if pp, err := strconv.ParseUint(p, 10, 16); err == nil {
-			name = h
+		// An empty port is the default port (RFC 3986 Section 3.2.3).
+		if p != "" {
+			pp, err := strconv.ParseUint(p, 10, 16)
+			if err != nil {
+				return result, ErrInvalidName
+			}
 			if pp > 0 {
 				result.Port = uint16(pp)
 			}
 		}
+		name = h
 	}
 	// An IPv6 literal without a port, e.g. [2001:db8::1] as found in URIs.
 	if n := len(name); n > 2 && name[0] == '[' && name[n-1] == ']' {
@@ -435,7 +440,8 @@ func (r *Resolver) Resolve(ctx context.Context, name string) (ResolveResult, err
 // 253 characters in presentation format.
 func validName(name string) bool {
 	name = strings.TrimSuffix(name, ".")
-	if len(name) > 253 {
+	// A colon is left over from a malformed host:port or IPv6 literal.
+	if len(name) > 253 || strings.Contains(name, ":") {
 		return false
 	}
 	for _, p := range strings.Split(name, ".") {
